@@ -31,6 +31,14 @@ pub(crate) mod verif_proofs {
         any_dist_of(kani::any())
     }
 
+    /// a distribution of one of the 7 families whose constructors Kani can execute
+    pub(crate) fn any_supported_dist() -> Dist {
+        let fams: [u8; 7] = [0, 1, 2, 3, 4, 6, 8];
+        let i: usize = kani::any();
+        kani::assume(i < 7);
+        any_dist_of(fams[i])
+    }
+
     pub(crate) fn any_dist_of(family: u8) -> Dist {
         let a: f64 = kani::any();
         let b: f64 = kani::any();
@@ -90,7 +98,7 @@ pub(crate) mod verif_proofs {
     /// [C12.dist] written from the statement: an accepted distribution has parameters the
     /// underlying sampler accepts (same argument order as dist_sample) and respects the explicit
     /// bounds that keep sampling fast
-    fn dist_params_valid(d: &Dist) -> bool {
+    pub(crate) fn dist_params_valid(d: &Dist) -> bool {
         match d.dist {
             DistType::Uniform { low, high } => {
                 !low.is_nan() && !high.is_nan() && low.is_finite() && high.is_finite() && low <= high && (high - low).is_finite()
